@@ -28,6 +28,7 @@ _MAIN = _c.PROTOCOL_C + r"""
 #include <fcntl.h>
 static int n_term, n_chg, chg[8], n_freed, n_rsp, rsp_type, rsp_arfcn, rsp_dbm;
 static int n_ind, n_rts; static struct trxcon_phyif_burst_ind last_ind; static sbit_t last_bits[2048]; static struct trxcon_phyif_rts_ind last_rts;
+void osmo_panic(const char *fmt, ...) { printf("osmo_panic\n"); fflush(stdout); abort(); }   /* OSMO_ASSERT of the code under test failed */
 int verif_fsm_state_chg(struct osmo_fsm_inst *fi, uint32_t st) { if (n_chg < 8) chg[n_chg] = st; n_chg++; fi->state = st; return 0; }
 void verif_fsm_term(struct osmo_fsm_inst *fi, enum osmo_fsm_term_cause cause, void *data) { n_term++; }
 int talloc_free(void *p) { n_freed++; free(p); return 0; }
